@@ -78,8 +78,8 @@ VARIANTS = [
     {"name": "P R1 freeze detaches the deserializer through a context manager", "expect": "silent", "edits": [
         {"file": "hippolyzer/lib/proxy/message_logger.py",
          "old": "        message.deserializer = None\n        try:\n            self._frozen_message = pickle.dumps(self._message, protocol=pickle.HIGHEST_PROTOCOL)\n"
-                "        finally:\n            message.deserializer = self._deserializer\n",
-         "new": "        with _without_deserializer(message, self._deserializer):\n"
+                "        finally:\n            message.deserializer = deserializer_ref\n",
+         "new": "        with _without_deserializer(message, deserializer_ref):\n"
                 "            self._frozen_message = pickle.dumps(self._message, protocol=pickle.HIGHEST_PROTOCOL)\n"},
         {"file": "hippolyzer/lib/proxy/message_logger.py",
          "old": "class LLUDPMessageLogEntry(AbstractMessageLogEntry):\n",
@@ -166,7 +166,7 @@ VARIANTS = [
      "old": "        self.ensure_parsed()\n        return self._blocks",
      "new": "        if self.deserializer is not None:\n            self.ensure_parsed()\n        return self._blocks"},
     {"name": "R3 ensure_parsed no longer reaches the body parser", "file": MSG, "expect": "C02.R3",
-     "old": "            self.deserializer().parse_message_body(self)", "new": "            self.deserializer()"},
+     "old": "        deserializer.parse_message_body(self)\n\n    def to_dict(", "new": "        deserializer.template_dict\n\n    def to_dict("},
     {"name": "P R3 getter returns through a local", "file": MSG, "expect": "silent",
      "old": "        self.ensure_parsed()\n        return self._blocks",
      "new": "        self.ensure_parsed()\n        parsed = self._blocks\n        return parsed"},
